@@ -272,3 +272,24 @@ package stdlibspec
 //@ extern slices.SortFunc(x, cmp)
 //@   assigns elems(x)
 //@   ensures forall i int :: 0 <= i && i < len(x) ==> exists j int :: 0 <= j && j < len(x) && x[i] == old(x[j])
+
+// ---------------------------------------------------------------------------
+// net/url (parse/resolve are not verified: shapes only)
+//@ extern net/url.Parse(rawURL)
+//@   pure
+//@   ensures (result0 != nil) != (result1 != nil)
+//@   ensures result0 != nil ==> fresh(result0)
+//@ extern (*net/url.URL).ResolveReference(u, ref)
+//@   pure
+//@   fresh
+//@   ensures result != nil
+//@ spec func portOfHost(host string) string
+//@ spec func nameOfHost(host string) string
+//@ extern (*net/url.URL).Port(u)
+//@   pure
+//@   ensures result == portOfHost(u.Host)
+//@ extern (*net/url.URL).Hostname(u)
+//@   pure
+//@   ensures result == nameOfHost(u.Host)
+//@ extern (*net/url.URL).EscapedPath(u)
+//@   pure
